@@ -9,7 +9,7 @@ for d in $IDS; do
   X=$(grep "^$d " /verif/seeded/EXTRA_PROPS 2>/dev/null | cut -d' ' -f2- | tr ' ' ',')
   [ -n "$X" ] && P="$P,$X"
   T=$(mktemp /tmp/seedtable-XXXXXX)
-  MUTANT_LINES=6 /verif/bin/mutant.sh "$D/patch.diff" "$P" "$TIER" > "$T" 2>&1; rc=$?
+  VERIF_MAX_GROUPS=1 VERIF_MIN_BUDGET=8 MUTANT_LINES=6 /verif/bin/mutant.sh "$D/patch.diff" "$P" "$TIER" > "$T" 2>&1; rc=$?
   python3 - "$D" "$rc" "$P" "$TIER" "$T" <<'PY'
 import json,sys,re
 dst,rc,prop,tier,tf=sys.argv[1],int(sys.argv[2]),sys.argv[3],sys.argv[4],sys.argv[5]
